@@ -468,6 +468,9 @@ func genC12(r *R, n int, tier string, out *Out) {
 		} else if g.coq != "GOther" && !containsOther(g.coq) {
 			f.fail("a supported %s was rejected", g.tag)
 		}
+		if !first.panicked && g.coq == "GOther" {
+			f.fail("a value of the unsupported dynamic type %s was accepted instead of causing a panic", g.tag)
+		}
 		lf := storeVia("NewListFrom", func() any { return at.NewListFrom(v) })
 		of := storeVia("NewObjectFrom", func() any { return at.NewObjectFrom(v) })
 		out.emit(&Case{
